@@ -938,7 +938,8 @@ class VarsManager(object):
 
     @contextlib.contextmanager
     def temp_params(self, params):
-        old_params = {i: self.get(i) for i in params.keys()}
+        # physical values: set_all() below writes physical values as well
+        old_params = {i: self.get(i, val_in_fit=False) for i in params.keys()}
         try:
             self.set_all(params)
             yield
